@@ -979,6 +979,187 @@ def check_batch(ctx, G, pid, cases, mode, tag, sampled_every=0, state=None):
                          'lons_deg': [round(math.degrees(x), 4) for x in case['lons']], 'labels': describe(case)})
 
 
+# --------------------------------------------------------------------------- regenerated kernels of grid.py (fourth generation)
+GRID_KERNEL_FUNCS = {
+    '_dateline_crossing_latitude': ('grid_cross_lat',),
+    '_calculate_segment_lengths': ('grid_seg_len_first', 'grid_seg_len_second', 'grid_seg_len_total'),
+    '_dateline_split_first_segment': tuple(f'grid_split_first_{t}' for t in ('lats', 'lons', 'alts', 'times', 'state', 'integ')),
+    '_dateline_split_second_segment': tuple(f'grid_split_second_{t}' for t in ('lats', 'lons', 'alts', 'times', 'state', 'integ')),
+    '_cell_idxs_touched_by_trajectory_with_state_and_integrated_vars': ('grid_fractions', 'grid_integ_values'),
+    'crosses_dateline': ('grid_cross_sign',),
+}
+
+
+def check_grid_kernels(ctx, G, cases):
+    """Validates the definitions regenerated from grid.py (`Kern.grid_*`, pykern fourth generation) against the running code: the
+    real `Gridder.grid_trajectory` is run on generated trajectories (both length measures) under a tracer that copies, for every
+    call of the functions the kernels were read from, the arguments at the call and the locals / the result at the return; the
+    calls of `great_circle_distance` made meanwhile are recorded as the table that stands for the uninterpreted `dist` of the
+    kernels; the generated definitions are run by the driver on the same bit patterns and compared element by element."""
+    from harness.common import pykern
+
+    g, errors = pykern.translate_all()
+    names = [n for ns in GRID_KERNEL_FUNCS.values() for n in ns]
+    specs = {k.name: k for k in pykern.SYM_KERNELS if k.name in names}
+    sm = ctx.extra.setdefault('kernels', {}).setdefault('grid', {'kernels': 0, 'points': 0, 'elements': 0, 'mismatches': 0,
+                                                                 'untranslatable': {}, 'calls': {}})
+    for n in names:
+        if n in errors:
+            sm['untranslatable'][n] = errors[n]
+            ctx.broken_obligation(f'kernel translator: {errors[n]}')
+    sm['stale'] = sorted(n for n in pykern.LAST_STALE if n in names)
+    try:
+        present = set(ctx.driver.outs([{'op': 'kern.names'}])[0]['present'])
+    except Exception as e:  # noqa: BLE001
+        ctx.broken_obligation(f'driver unavailable: {e}')
+        return sm
+    usable = set()
+    for n in names:
+        if n in specs and n not in errors:
+            if n in present:
+                usable.add(n)
+            else:
+                ctx.broken_obligation(f'kernel {n} missing from the built driver (stale build?)')
+    codes = {}
+    for fname in GRID_KERNEL_FUNCS:
+        fn = getattr(G.Gridder, fname, None) or getattr(G, fname, None)
+        if fn is None:
+            if not all(n in pykern.LAST_STALE or n in errors for n in GRID_KERNEL_FUNCS[fname]):
+                ctx.diverge('kernel scenario', {'function': fname}, 'function to observe no longer exists')
+            continue
+        codes[getattr(fn, '__wrapped__', fn).__code__] = fname
+    gcd_code = getattr(G, 'great_circle_distance', None)
+    gcd_code = gcd_code.__code__ if gcd_code is not None else None
+    queue: list = []
+    seen: set = set()
+
+    def arr(a):
+        return [f2u(float(t)) for t in np.asarray(a, dtype=float).ravel()]
+
+    def run(name, x=(), v=(), nn=(), want=None, table=None):
+        if name not in usable or want is None:
+            return
+        w = [float(t) for t in np.asarray(want, dtype=float).ravel()]
+        if pykern.is_vector_kernel(specs[name], g):
+            op = {'op': 'kern.evalv', 'name': name, 'attrs': {}, 'vattrs': ({'$fn:great_circle_distance': table} if table is not None else {}),
+                  'pts': [{'x': [f2u(float(t)) for t in x], 'b': [], 'v': [arr(a) for a in v], 'n': [int(t) for t in nn]}]}
+            queue.append((name, op, w))
+        else:
+            pts = [{'x': [f2u(float(t)) for t in row], 'b': []} for row in x]
+            queue.append((name, {'op': 'kern.eval', 'name': name, 'attrs': {}, 'pts': pts}, w))
+
+    def flush():
+        if not queue:
+            return
+        outs = ctx.driver.outs([q[1] for q in queue])
+        for (name, op, w), o in zip(queue, outs):
+            have = [u2f(t) for t in o[0]] if (o and isinstance(o[0], list)) else [u2f(t) for t in o]
+            seen.add(name)
+            sm['points'] += 1
+            sm['elements'] += len(w)
+            ctx.evaluations += 1
+            if not (len(w) == len(have) and all(close(a, c, 1e-9, 1e-300) or (a != a and c != c) for a, c in zip(w, have))):
+                sm['mismatches'] += 1
+                if sm['mismatches'] <= 5:
+                    ctx.diverge(f'kernel {name} (translation of gridding/grid.py:{specs[name].func}) vs implementation',
+                                {'kernel': name, 'op': op}, f'implementation {w[:8]!r} vs translated kernel {have[:8]!r}')
+        queue.clear()
+
+    def snap(loc):
+        out = {}
+        for k_, v_ in loc.items():
+            if isinstance(v_, np.ndarray):
+                out[k_] = np.array(v_, copy=True)
+            elif isinstance(v_, tuple) and all(isinstance(t, np.ndarray) for t in v_):
+                out[k_] = tuple(np.array(t, copy=True) for t in v_)
+            elif v_ is None or isinstance(v_, (int, float, np.integer, np.floating)):
+                out[k_] = v_
+        return out
+
+    for case, mode in cases:
+        obs: list = []
+        table: list = []
+        pending: dict = {}
+
+        def local(frame, event, arg):
+            if event == 'return':
+                fname = codes.get(frame.f_code)
+                if fname is not None and arg is not None:
+                    obs.append((fname, pending.pop(id(frame), {}), snap(frame.f_locals), arg))
+                elif frame.f_code is gcd_code and arg is not None:
+                    a = [frame.f_locals.get(n_) for n_ in ('lat1', 'lon1', 'lat2', 'lon2')]
+                    if all(t is not None and np.ndim(t) == 0 for t in a) and np.ndim(arg) == 0:
+                        table.extend([f2u(float(t)) for t in a] + [f2u(float(arg))])
+            return local
+
+        def tracer(frame, event, arg):
+            if event == 'call' and (frame.f_code in codes or frame.f_code is gcd_code):
+                if frame.f_code in codes:
+                    pending[id(frame)] = snap(frame.f_locals)
+                return local
+            return None
+
+        old = sys.gettrace()
+        sys.settrace(tracer)
+        try:
+            with np.errstate(all='ignore'):
+                run_impl(G, case, mode)
+        finally:
+            sys.settrace(old)
+        for fname, a, loc, ret in obs:
+            sm['calls'][fname] = sm['calls'].get(fname, 0) + 1
+            try:
+                if fname == 'crosses_dateline':
+                    l1, l2 = np.asarray(a['lon1'], dtype=float).ravel(), np.asarray(a['lon2'], dtype=float).ravel()
+                    if len(l1):
+                        run('grid_cross_sign', x=list(zip(l1, l2)), want=ret)
+                    continue
+                if fname == '_cell_idxs_touched_by_trajectory_with_state_and_integrated_vars':
+                    if not a.get('integrated_variables'):
+                        continue
+                    cnt = np.asarray(loc['count_subsegments'])
+                    run('grid_fractions', v=[loc['subsegment_distances'], loc['segment_distances_repeated'], np.repeat(cnt, cnt)],
+                        want=loc['subsegment_distance_fractions'])
+                    for j, var in enumerate(a['integrated_variables']):
+                        run('grid_integ_values', v=[np.repeat(var, cnt), loc['subsegment_distance_fractions']], want=ret[5][j])
+                    continue
+                idx, sign = int(a['dateline_crossing_idx']), float(a['dateline_crossing_sign'])
+                if fname == '_dateline_crossing_latitude':
+                    run('grid_cross_lat', x=[sign], v=[a['lats'], a['lons']], nn=[idx], want=ret)
+                elif fname == '_calculate_segment_lengths':
+                    for i, t in enumerate(('first', 'second', 'total')):
+                        run(f'grid_seg_len_{t}', x=[sign], v=[a['lats'], a['lons']], nn=[idx], want=ret[i], table=list(table))
+                else:
+                    part = 'first' if 'first' in fname else 'second'
+                    xs = [sign, float(a[f'{part}_segment_length']), float(a['total_segment_length'])]
+                    base = [a['lats'], a['lons'], a['altitudes'] if a['altitudes'] is not None else [], a['times'] if a['times'] is not None else []]
+                    run(f'grid_split_{part}_lats', x=xs, v=base + [[], []], nn=[idx], want=ret[0])
+                    run(f'grid_split_{part}_lons', x=xs, v=base + [[], []], nn=[idx], want=ret[1])
+                    if a['altitudes'] is not None:
+                        run(f'grid_split_{part}_alts', x=xs, v=base + [[], []], nn=[idx], want=ret[2])
+                    if a['times'] is not None:
+                        run(f'grid_split_{part}_times', x=xs, v=base + [[], []], nn=[idx], want=ret[3])
+                    for j, var in enumerate(a['state_variables']):
+                        run(f'grid_split_{part}_state', x=xs, v=base + [var, []], nn=[idx], want=ret[4][j])
+                    for j, var in enumerate(a['integrated_variables']):
+                        run(f'grid_split_{part}_integ', x=xs, v=base + [[], var], nn=[idx], want=ret[5][j])
+            except (KeyError, IndexError, TypeError, ValueError) as e:
+                ks = GRID_KERNEL_FUNCS[fname]
+                if all(n in pykern.LAST_STALE for n in ks):
+                    ctx.count('source_tie_stale_unobservable:' + fname)
+                else:
+                    ctx.diverge(f'kernels of {fname}', {'function': fname}, f'call not observable: {type(e).__name__}: {e}')
+        if len(queue) > 400:
+            flush()
+    flush()
+    sm['kernels'] = len(seen)
+    for n in sorted(usable - seen):
+        if n not in pykern.LAST_STALE:
+            ctx.notes.append(f'grid kernel {n} was not exercised by this run')
+    ctx.count('grid_kernel_points', sm['points'])
+    return sm
+
+
 def load_corpus_case(path):
     d = json.loads(Path(path).read_text())
     if 'first' in d:  # a replay file written by ctx.finish
@@ -1027,6 +1208,11 @@ def run_property(ctx, pid):
         check_batch(ctx, G, pid, [c for c in part[::3] if c['geod_ok']], 'geod', 'generated', state=state)
     check_batch(ctx, G, pid, corners, 'taxi', 'corners', sampled_every=2, state=state)
     check_batch(ctx, G, pid, corners[::2], 'geod', 'corners', state=state)
+    # 3b. the definitions regenerated from grid.py vs the running code (source tie of the theorems `src_*`)
+    kc = [(c, 'taxi') for c in boundary_cases()] + [(c, 'geod') for c in boundary_cases()]
+    kc += [(c, 'taxi' if i % 2 else ('geod' if c['geod_ok'] else 'taxi')) for i, c in enumerate(gen[: ctx.scale(quick=160, thorough=1500)])]
+    kc += [(c, 'taxi') for c in corners[: ctx.scale(quick=40, thorough=300)]]
+    check_grid_kernels(ctx, G, kc)
     # 4. malformed stream
     mal = [malformed_case(rng) for _ in range(max(20, n // 20))]
     check_batch(ctx, G, pid, mal, 'taxi', 'malformed', state=state)
